@@ -62,7 +62,7 @@ def run(P, R, tier):
 def pairs(P, R, f):
     loop = None
     for s in astq.own_nodes(f, ast.For):
-        if isinstance(s.target, ast.Name) and 'range(len(' in norm(s.iter):
+        if isinstance(s.target, ast.Name) and isinstance(s.iter, ast.Call) and norm(s.iter.func) == 'range' and 'len(' in norm(s.iter):
             loop = s
     if loop is None:
         raise AnalysisError('C05.a: loop over the right frame not found')
@@ -105,7 +105,7 @@ def pairs(P, R, f):
                 ok_mask = isinstance(md, ast.Call) and isinstance(md.func, ast.Attribute) and md.func.attr == 'intersects' \
                     and astq.arg_of(md, pos=1, kw='inds') is not None and norm(astq.arg_of(md, pos=1, kw='inds')) == cand
                 recv = astq.trace(f, md.func.value) if ok_mask else None
-                ok_recv = isinstance(recv, ast.AST) and norm(recv).endswith('.geometry.array')
+                ok_recv = isinstance(recv, ast.AST) and (norm(recv).endswith('.geometry.array') or norm(recv).endswith('.geometry.values'))
                 ok_cand = isinstance(cd, ast.Call) and isinstance(cd.func, ast.Attribute) and cd.func.attr == 'intersects'
                 sx = astq.trace(f, cd.func.value) if ok_cand else None
                 ok_sx = isinstance(sx, ast.AST) and norm(sx).endswith('.geometry.sindex')
@@ -118,7 +118,7 @@ def pairs(P, R, f):
                     okb = isinstance(shape, ast.Subscript) and norm(shape.slice) == i and isinstance(bnds, ast.Subscript) and norm(bnds.slice).lstrip('(').startswith(i)
                     rs = astq.trace(f, shape.value) if isinstance(shape, ast.Subscript) else None
                     rb = astq.trace(f, bnds.value) if isinstance(bnds, ast.Subscript) else None
-                    okb = okb and isinstance(rs, ast.AST) and norm(rs) == f'{right_frame}.geometry.array' \
+                    okb = okb and isinstance(rs, ast.AST) and norm(rs) in (f'{right_frame}.geometry.array', f'{right_frame}.geometry.values') \
                         and isinstance(rb, ast.AST) and norm(rb).startswith(f'{right_frame}.geometry.bounds')
                     R.check(okb, 'C05.b', f, s, f'the shape and the bounds used in iteration {i} are row {i} of the right frame\'s active geometry',
                             f'shape `{norm(shape) if isinstance(shape, ast.AST) else shape}` / bounds `{norm(bnds) if isinstance(bnds, ast.AST) else bnds}` are not row {i} of {right_frame}.geometry')
